@@ -125,7 +125,13 @@ def collect_trusted(gen_text):
     for m in re.finditer(r'#\[verifier::external_body\]', masked):
         mm = re.search(r'\b(fn|struct)\s+(\w+)', masked[m.end():m.end() + 400])
         if mm:
-            out.append('external_body %s %s' % (mm.group(1), mm.group(2)))
+            ls = gen_text.rfind('\n', 0, gen_text.rfind('\n', 0, m.start())) + 1
+            prevline = gen_text[ls:m.start()]
+            sm = re.search(r'STUB-OF (\w+): contract discharged on the real body in unit (\w+)', prevline)
+            if sm:
+                out.append('stub fn %s (contract discharged on the real body in unit %s; identical contract file)' % (sm.group(1), sm.group(2)))
+            else:
+                out.append('external_body %s %s' % (mm.group(1), mm.group(2)))
     for m in re.finditer(r'assume_specification\s*(?:<[^>]*>)?\s*\[([^\]]+)\]', masked):
         out.append('assume_specification %s' % rscan.norm_ws(gen_text[m.start(1):m.end(1)]))
     for m in re.finditer(r'\buninterp\s+spec\s+fn\s+(\w+)', masked):
